@@ -275,11 +275,19 @@ func defaultDiedSig(stderr string) (sig, what string) {
 	return "process-dies:" + MsgClass(strings.TrimPrefix(strings.TrimPrefix(msg, "fatal error: "), "panic: ")) + ":" + fr, "the process running the case died (not recoverable by a caller):\n" + head
 }
 
+// repoDir is the tree under test (frames are recognised by their file path).
+var repoDir = func() string {
+	if r := os.Getenv("VERIF_REPO"); r != "" {
+		return strings.TrimRight(r, "/")
+	}
+	return "/repo"
+}()
+
 func topRepoFrame(stack string) string {
 	lines := strings.Split(stack, "\n")
 	for i := 0; i+1 < len(lines); i++ {
 		l := lines[i]
-		if strings.HasPrefix(l, "github.com/elliotchance/gedcom/") && strings.Contains(lines[i+1], "/repo/") {
+		if strings.HasPrefix(l, "github.com/elliotchance/gedcom/") && strings.Contains(lines[i+1], repoDir+"/") {
 			fn := l
 			if j := strings.LastIndex(fn, "("); j > 0 {
 				fn = fn[:j]
